@@ -13,6 +13,7 @@ type Options struct {
 	Flat     bool // single-line forms only (no NL inside compound lists)
 	NoNested bool // no command substitutions
 	HDBias   bool // prefer here-documents among redirections
+	InParen  bool // the program will be placed inside ( ) / $( ): no (( )) command
 	LeadHD   bool // start the complete command with `cmd <<E ;` so that a here-document is pending on the whole first line
 }
 
@@ -35,7 +36,11 @@ func New(r *rand.Rand, o Options) *G {
 	if o.MaxHD == 0 {
 		o.MaxHD = 3
 	}
-	return &G{R: r, O: o, budget: o.Budget, Pairs: map[string]int{}}
+	g := &G{R: r, O: o, budget: o.Budget, Pairs: map[string]int{}}
+	if o.InParen {
+		g.paren = 1
+	}
+	return g
 }
 
 func (g *G) n(k int) int             { return g.R.IntN(k) }
